@@ -14,11 +14,11 @@
 //!                observable while the last answer was Pending fires the waker of that poll
 //!   ok:fullstuck ready again only after that waker fired; at the end a Pending stream stays Pending
 use crate::common::*;
-use crate::m_adapt::{ok_in, BoxStream, CountWaker};
+use crate::m_adapt::{ok_in, BoxStream, CountWaker, Item};
 use crate::m_ovec::{args, mutate, show_ret_opt, spec_mut, split_op};
 use eyeball::{Observable, SharedObservable};
 use eyeball_im::{ObservableVector, VectorDiff};
-use eyeball_im_util::vector::VectorObserverExt;
+use eyeball_im_util::vector::{VectorObserverExt, VectorSubscriberExt};
 use imbl::Vector;
 use std::sync::atomic::{AtomicUsize, Ordering as AO};
 use std::sync::Arc;
@@ -44,7 +44,42 @@ impl Lim {
     }
 }
 
+/// the two flavours of the vector's subscriber stream
+trait Flavour: Item + Sized {
+    fn attach(kind: &str, sub: eyeball_im::VectorSubscriber<u32>, n: usize, lsub: eyeball::Subscriber<usize>) -> (Vector<u32>, BoxStream<Self>);
+}
+impl Flavour for VectorDiff<u32> {
+    fn attach(kind: &str, sub: eyeball_im::VectorSubscriber<u32>, n: usize, lsub: eyeball::Subscriber<usize>) -> (Vector<u32>, BoxStream<Self>) {
+        if kind == "head" {
+            let (v, s) = sub.dynamic_head_with_initial_value(n, lsub);
+            (v, Box::pin(s))
+        } else {
+            let (v, s) = sub.dynamic_skip_with_initial_count(n, lsub);
+            (v, Box::pin(s))
+        }
+    }
+}
+impl Flavour for Vec<VectorDiff<u32>> {
+    fn attach(kind: &str, sub: eyeball_im::VectorSubscriber<u32>, n: usize, lsub: eyeball::Subscriber<usize>) -> (Vector<u32>, BoxStream<Self>) {
+        if kind == "head" {
+            let (v, s) = sub.batched().dynamic_head_with_initial_value(n, lsub);
+            (v, Box::pin(s))
+        } else {
+            let (v, s) = sub.batched().dynamic_skip_with_initial_count(n, lsub);
+            (v, Box::pin(s))
+        }
+    }
+}
+
 pub fn run_line(line: &str, out: &mut String) {
+    if line.split(" :: ").next().unwrap().split_whitespace().nth(4) == Some("b") {
+        run_generic::<Vec<VectorDiff<u32>>>(line, out)
+    } else {
+        run_generic::<VectorDiff<u32>>(line, out)
+    }
+}
+
+fn run_generic<I: Flavour>(line: &str, out: &mut String) {
     let (head, evs) = match line.split_once(" :: ") {
         Some((h, e)) => (h, e),
         None => (line, ""),
@@ -64,7 +99,7 @@ pub fn run_line(line: &str, out: &mut String) {
     let mut silent = false; // a store without announcement happened since
     let mut ann_since_pending = false; // an announcement the adapter may or may not have consumed yet
     let mut uncertain = false; // the observable was dropped while such an announcement was outstanding
-    let mut stream: Option<BoxStream<VectorDiff<u32>>> = None;
+    let mut stream: Option<BoxStream<I>> = None;
     let mut view: Vector<u32> = Vector::new();
     let mut adapter_limit = limit0; // what the adapter must be using at its next Pending
     let mut app_ok = true;
@@ -98,13 +133,7 @@ pub fn run_line(line: &str, out: &mut String) {
                 let n = l.get();
                 let lsub = l.subscribe();
                 let sub = o.subscribe();
-                let (v, s): (Vector<u32>, BoxStream<VectorDiff<u32>>) = if kind == "head" {
-                    let (v, s) = sub.dynamic_head_with_initial_value(n, lsub);
-                    (v, Box::pin(s))
-                } else {
-                    let (v, s) = sub.dynamic_skip_with_initial_count(n, lsub);
-                    (v, Box::pin(s))
-                };
+                let (v, s): (Vector<u32>, BoxStream<I>) = I::attach(kind, sub, n, lsub);
                 adapter_limit = n;
                 ann_since_pending = false;
                 let ok = v.iter().copied().eq(expected(kind, n, &shadow).iter().copied());
@@ -132,22 +161,28 @@ pub fn run_line(line: &str, out: &mut String) {
                         panicked = true;
                         break;
                     }
-                    Some(Poll::Ready(Some(d))) => {
+                    Some(Poll::Ready(Some(it))) => {
                         if last_pending && !woken {
                             stuck_ok = false;
                         }
                         last_pending = false;
-                        items.push(show_diff(&d));
-                        if !ok_in(&d, view.len()) {
-                            app_ok = false;
+                        let ds = it.diffs();
+                        items.push(I::show(&ds));
+                        if ds.is_empty() {
+                            app_ok = false; // C13: empty batches are never emitted
                         }
-                        let mut v2 = view.clone();
-                        match catch(move || {
-                            d.apply(&mut v2);
-                            v2
-                        }) {
-                            Some(v2) => view = v2,
-                            None => app_ok = false,
+                        for d in ds {
+                            if !ok_in(&d, view.len()) {
+                                app_ok = false;
+                            }
+                            let mut v2 = view.clone();
+                            match catch(move || {
+                                d.apply(&mut v2);
+                                v2
+                            }) {
+                                Some(v2) => view = v2,
+                                None => app_ok = false,
+                            }
                         }
                         end = 'R';
                     }
